@@ -39,7 +39,7 @@ m = {
     "engines": [
         {"name": "flacref", "path": "oracle/", "serves_properties": sorted(PROPS), "kind_free_text": "independent RFC 9639 reference decoder/validator, structure-aware stream generator with malform knobs, PCM generators, MD5/CRC (no dependency on flac-codec)"},
         {"name": "flacmon", "path": "harness/", "serves_properties": sorted(PROPS), "kind_free_text": "workload drivers + runtime monitors (panic/CPU/allocation monitors, I/O boundary recorders and fault injectors, sequential reference models) run as sharded processes against the crate built from /repo's working tree"},
-        {"name": "check", "path": "check", "serves_properties": sorted(PROPS), "kind_free_text": "orchestrator: builds variants (release, checked = overflow checks + debug assertions, par, asan, tsan), runs shards, merges observations, applies known_findings.json, writes evidence, prints the verdict"},
+        {"name": "check", "path": "check", "serves_properties": sorted(PROPS), "kind_free_text": "orchestrator: builds variants (release, checked = overflow checks + debug assertions, par, asan, tsan), runs shards, in the thorough tier also a coverage-guided stage (libFuzzer targets in harness/fuzz calling the same monitors; artifacts and evolved corpus replayed through release/checked) and a Miri stage (tiny workloads, one scheduler seed per process), merges observations, applies known_findings.json, writes evidence, prints the verdict"},
     ],
     "checks": checks,
     "notes": "Verdicts are three-valued: exit 0 held on what was observed, exit 1 + VIOLATION line, exit 2 + INCONCLUSIVE line (never a VIOLATION) for build/harness failures or unmet observation quotas. VERIF_SEED seeds every random choice. See DESIGN.md.",
